@@ -58,8 +58,8 @@ def run(ctx: Ctx):
                           f"{q} is {exp[q]} but has no default: an absent key is rejected when parsing", P_TYPES, f.lineno)
     ctx.floor("attributes", nfields, 1500)
     # (c) fold
-    omit = special.fold_omit(im)
-    ctx.fn("_hooks.py:_omit")
+    omit = special.folded_omit(im)
+    ctx.fn("_hooks.py:_register_custom_property_hooks (folded)")
     ctx.fn("types.py:is_special_property")
     for c in t.attrs_classes():
         for f in c.fields:
